@@ -174,6 +174,15 @@ func RunTree(r *vh.Run, rng *vh.RNG, name string, t *chainx.Tree, sched [][]int)
 			c.Oracle("pruned-node-tipstate-differs", "")
 		}
 	}
+	observeSome := func() {
+		step := len(t.Blocks)/40 + 1
+		for i, b := range t.Blocks[1:] {
+			if i%step == 0 || i+60 > len(t.Blocks) || i < 5 {
+				c.Op(fmt.Sprintf("rec %d", b.ID), recLine(t, nd, b.ID))
+			}
+		}
+		c.Op("minreorg", fmt.Sprint(idOf(t, nd.CM.MinReorgIndex().ID)))
+	}
 	for bi, batch := range sched {
 		// is this batch a resubmission of pruned blocks?
 		for _, id := range batch {
@@ -214,7 +223,12 @@ func RunTree(r *vh.Run, rng *vh.RNG, name string, t *chainx.Tree, sched [][]int)
 			}
 		}
 		if strings.HasPrefix(name, "directed/") {
-			if bi == 0 {
+			if longPlan != nil {
+				for _, ph := range longPlan[bi] {
+					doPrune(ph)
+				}
+				observeSome()
+			} else if bi == 0 {
 				doPrune(3)
 				observeAll()
 			}
@@ -230,7 +244,11 @@ func RunTree(r *vh.Run, rng *vh.RNG, name string, t *chainx.Tree, sched [][]int)
 			observeAll()
 		}
 	}
-	observeAll()
+	if longPlan != nil {
+		observeSome()
+	} else {
+		observeAll()
+	}
 	c.Nontrivial = prunes > 0 && len(pruned) > 0
 	if belowForks > 0 {
 		c.Tags = append(c.Tags, "fork-below-pruned")
@@ -264,8 +282,30 @@ func directed(r *vh.Run, rng *vh.RNG) {
 	RunTree(r, rng, "directed/resubmit-then-reorg", t, [][]int{main, main[:2], t.PathFromRoot(fork)})
 }
 
+// longChain: pruning switched on for an existing long chain — more than a thousand unpruned
+// best-chain bodies below the height in ONE PruneBlocks call, then a second call, then growth.
+func longChain(r *vh.Run, rng *vh.RNG) {
+	net := chainx.NewNet(rng, 1000000, 2000000, 2)
+	n := 1100 + rng.Intn(200)
+	t := chainx.LongChain(rng, net, n)
+	all := make([]int, n)
+	for i := range all {
+		all[i] = i + 1
+	}
+	h := uint64(n - 40)
+	sched := [][]int{all[:n-20]}
+	// the prune plan is keyed by batch index in RunTree's directed mode
+	longPlan = map[int][]uint64{0: {h, h}, 1: {h + 10}}
+	sched = append(sched, all[n-20:])
+	RunTree(r, rng, "directed/long-chain-prune", t, sched)
+	longPlan = nil
+}
+
+var longPlan map[int][]uint64
+
 func Run(r *vh.Run) {
 	directed(r, vh.NewRNG(7))
+	longChain(r, vh.NewRNG(r.Seed^0x51ed))
 	r.Rule = "a case = one fork tree submitted in one schedule to a real Manager with PruneBlocks(h) interleaved (h in {0,1,tip/2,tip,tip+1,beyond}), repeated prunes, later forks above/at/below the pruned height and resubmission of pruned blocks; an unpruned real twin receives the same submissions; non-trivial = at least one body was actually pruned; distinct = distinct op lists"
 	rng := vh.NewRNG(r.Seed)
 	trees := r.Pick(40, 500)
